@@ -6,6 +6,7 @@ import (
 	"fmt"
 	"math"
 	"math/rand"
+	"net"
 	"testing"
 	"time"
 
@@ -166,7 +167,14 @@ type c06e2e struct {
 	RefuteAt        time.Duration `json:"refute_at_ns,omitempty"` // 0 = none; offset from first suspicion start
 	ForeignDeadAt   time.Duration `json:"foreign_dead_at_ns,omitempty"`
 	AccuseSelfFirst bool          `json:"accuse_self_first,omitempty"` // raise V's health score before the suspicion starts
+	// membership history before the suspicion: "" | rejoin-newaddr | come-and-go | meta-update | addr-conflict
+	Prehistory string `json:"prehistory,omitempty"`
+	// offsets (from suspicion start) at which claims about the target that are OLDER than what V holds
+	// arrive (dead, suspect from a fresh name, alive): they must not change anything
+	Noise []time.Duration `json:"stale_noise_at_ns,omitempty"`
 }
+
+const c06TInc = 3 // the target's incarnation, so that older claims about it exist
 
 func runC06E2E(run *Run, seed int64, sc c06e2e) (out []*c01Result) {
 	fail := func(key, f string, a ...any) {
@@ -193,8 +201,40 @@ func runC06E2E(run *Run, seed int64, sc c06e2e) (out []*c01Result) {
 		rig.Introduce(p, 1)
 	}
 	tgt := rig.AddPeer("T", "10.9.2.1", 7946) // never answers
-	rig.Introduce(tgt, 1)
+	rig.Introduce(tgt, c06TInc)
 	Settle(time.Millisecond)
+	switch sc.Prehistory {
+	case "rejoin-newaddr":
+		// a member leaves and its name comes back from another address
+		r := rig.AddPeer("r", "10.9.3.1", 7946)
+		r.AutoAck = true
+		rig.Introduce(r, 1)
+		Settle(time.Millisecond)
+		r.Send(Enc(TDead, &WDead{Incarnation: 1, Node: "r", From: "r"}))
+		Settle(time.Millisecond)
+		r2 := rig.AddPeer("r@new", "10.9.3.2", 7946)
+		r2.Name = "r"
+		r2.AutoAck = true
+		rig.Introduce(r2, 2)
+		Settle(time.Millisecond)
+		if rec := rig.V.Record("r"); rec == nil || rec.State != memberlist.StateAlive || net.IP(rec.Addr).String() != "10.9.3.2" {
+			fail("harness/prehistory", "rejoin from a new address after a leave was not accepted: %s", recString(rec))
+			return
+		}
+	case "come-and-go":
+		r := rig.AddPeer("r", "10.9.3.1", 7946)
+		rig.Introduce(r, 1)
+		Settle(time.Millisecond)
+		r.Send(Enc(TDead, &WDead{Incarnation: 1, Node: "r", From: "r"}))
+		Settle(time.Millisecond)
+	case "meta-update":
+		peers[0].Send(Enc(TAlive, &WAlive{Incarnation: 2, Node: "p0", Addr: []byte(peers[0].EP.IP), Port: 7946, Meta: []byte("new-meta"), Vsn: DefaultVsn()}))
+		Settle(time.Millisecond)
+	case "addr-conflict":
+		peers[0].Send(Enc(TAlive, &WAlive{Incarnation: 5, Node: "p0", Addr: []byte{10, 9, 77, 77}, Port: 7946, Vsn: DefaultVsn()}))
+		Settle(time.Millisecond)
+	}
+	run.Cell("e2e-prehistory", sc.Prehistory)
 	if sc.AccuseSelfFirst {
 		peers[0].Send(Enc(TSuspect, &WSuspect{Incarnation: 1, Node: "V", From: "p0"}))
 		Settle(time.Millisecond)
@@ -209,19 +249,31 @@ func runC06E2E(run *Run, seed int64, sc c06e2e) (out []*c01Result) {
 		}
 	}
 	rig.V.Ev.mu.Unlock()
-	// wait for the first self-started suspicion
+	// wait for the first self-started suspicion; the table size is sampled at every poll because the
+	// parameters depend on the size at the moment the suspicion starts (records of departed members
+	// are reaped at probe-round boundaries)
 	var info memberlist.VerifSuspicionInfo
 	found := false
+	sizes := func() (n, est int) {
+		d := m.VerifDump()
+		if d.NumNodes != len(d.Records) {
+			fail("size-estimate", "the node's cluster-size estimate is %d but its table holds %d records (prehistory %q)", d.NumNodes, len(d.Records), sc.Prehistory)
+		}
+		return len(d.Records), d.NumNodes
+	}
+	prevN, _ := sizes()
+	curN := prevN
 	for i := 0; i < 3000 && !found; i++ {
 		Settle(5 * time.Millisecond)
+		prevN = curN
+		curN, _ = sizes()
 		info, found = m.VerifSuspicionOf("T")
 	}
 	if !found {
 		fail("harness/no-suspicion", "target was never suspected")
 		return
 	}
-	check := func(info memberlist.VerifSuspicionInfo) (k int, min, max time.Duration, ok bool) {
-		n := m.VerifDump().NumNodes
+	params := func(n int) (k int, min, max time.Duration) {
 		k = cf.SuspicionMult - 2
 		if n-2 < k {
 			k = 0
@@ -229,13 +281,21 @@ func runC06E2E(run *Run, seed int64, sc c06e2e) (out []*c01Result) {
 		scale := math.Max(1.0, math.Log10(math.Max(1.0, float64(n))))
 		min = time.Duration(cf.SuspicionMult) * time.Duration(scale*1000) * cf.ProbeInterval / 1000
 		max = time.Duration(cf.SuspicionMaxTimeoutMult) * min
-		if info.K != k || info.Min != min || info.Max != max {
-			fail("parameters", "suspicion started with k=%d min=%v max=%v; configuration and cluster size %d give k=%d min=%v max=%v (health score %d)", info.K, info.Min, info.Max, n, k, min, max, m.GetHealthScore())
-			return k, min, max, false
-		}
-		return k, min, max, true
+		return
 	}
-	k, min, max, ok := check(info)
+	// check compares the timer's parameters with those the configuration gives for the table size at
+	// the poll before or the poll at which the suspicion was first seen
+	check := func(info memberlist.VerifSuspicionInfo, nBefore, nAt int) (k int, min, max time.Duration, ok bool) {
+		for _, n := range []int{nAt, nBefore} {
+			k, min, max = params(n)
+			if info.K == k && info.Min == min && info.Max == max {
+				return k, min, max, true
+			}
+		}
+		fail("parameters", "suspicion started with k=%d min=%v max=%v; configuration and cluster size %d give k=%d min=%v max=%v (health score %d)", info.K, info.Min, info.Max, nAt, k, min, max, m.GetHealthScore())
+		return k, min, max, false
+	}
+	k, min, max, ok := check(info, prevN, curN)
 	if !ok {
 		return
 	}
@@ -258,6 +318,22 @@ func runC06E2E(run *Run, seed int64, sc c06e2e) (out []*c01Result) {
 	if sc.ForeignDeadAt > 0 {
 		acts = append(acts, action{sc.ForeignDeadAt, "foreign-dead", ""})
 	}
+	for i, at := range sc.Noise {
+		acts = append(acts, action{at, "noise", fmt.Sprint(i)})
+	}
+	noise := func(i int) {
+		switch i % 4 {
+		case 0:
+			peers[0].Send(Enc(TDead, &WDead{Incarnation: c06TInc - 1, Node: "T", From: "p0"}))
+		case 1:
+			peers[0].Send(Enc(TSuspect, &WSuspect{Incarnation: c06TInc - 1, Node: "T", From: fmt.Sprintf("fresh%d", i)}))
+		case 2:
+			peers[0].Send(Enc(TAlive, &WAlive{Incarnation: c06TInc - 1, Node: "T", Addr: []byte(tgt.EP.IP), Port: 7946, Vsn: DefaultVsn()}))
+		case 3:
+			peers[0].Send(Enc(TDead, &WDead{Incarnation: c06TInc - 2, Node: "T", From: "T"}))
+		}
+		run.Count("e2e_stale_claims_during_suspicion", 1)
+	}
 	for i := range acts {
 		for j := i + 1; j < len(acts); j++ {
 			if acts[j].at < acts[i].at {
@@ -279,13 +355,17 @@ func runC06E2E(run *Run, seed int64, sc c06e2e) (out []*c01Result) {
 		}
 		switch a.kind {
 		case "confirm":
-			peers[0].Send(Enc(TSuspect, &WSuspect{Incarnation: 1, Node: "T", From: a.from}))
+			peers[0].Send(Enc(TSuspect, &WSuspect{Incarnation: c06TInc, Node: "T", From: a.from}))
 			script.Evs = append(script.Evs, confEv{time.Since(start), a.from})
+		case "noise":
+			var ni int
+			fmt.Sscan(a.from, &ni)
+			noise(ni)
 		case "refute":
-			peers[0].Send(Enc(TAlive, &WAlive{Incarnation: 2, Node: "T", Addr: []byte(tgt.EP.IP), Port: 7946, Vsn: DefaultVsn()}))
+			peers[0].Send(Enc(TAlive, &WAlive{Incarnation: c06TInc + 1, Node: "T", Addr: []byte(tgt.EP.IP), Port: 7946, Vsn: DefaultVsn()}))
 			ended = "refuted"
 		case "foreign-dead":
-			peers[0].Send(Enc(TDead, &WDead{Incarnation: 1, Node: "T", From: "p0"}))
+			peers[0].Send(Enc(TDead, &WDead{Incarnation: c06TInc, Node: "T", From: "p0"}))
 			ended = "foreign-dead"
 		}
 		Settle(10 * time.Microsecond)
@@ -306,28 +386,52 @@ func runC06E2E(run *Run, seed int64, sc c06e2e) (out []*c01Result) {
 			return // died before the refutation arrived; judged below would need the schedule: skip
 		}
 		rec := rig.V.Record("T")
-		if rec == nil || rec.State != memberlist.StateAlive || rec.Incarnation != 2 {
+		if rec == nil || rec.State != memberlist.StateAlive || rec.Incarnation != c06TInc+1 {
 			fail("refutation-not-accepted", "refutation at +%v left the target as %s", sc.RefuteAt, recString(rec))
 			return
 		}
 		// the first timer's deadline must not kill the refuted / re-suspected target early
 		var second memberlist.VerifSuspicionInfo
 		got := false
+		noised := 0
+		secondBefore, secondAt := 0, 0
 		for i := 0; i < 12000 && leaveAt.IsZero(); i++ {
 			Settle(5 * time.Millisecond)
+			prevN = curN
+			curN, _ = sizes()
 			if si, ok := m.VerifSuspicionOf("T"); ok && !si.Start.Equal(start) {
+				if !got {
+					secondBefore, secondAt = prevN, curN
+				}
 				second, got = si, true
+				// claims from before the refutation trickle in during the second suspicion
+				if noised < len(sc.Noise) && time.Since(si.Start) > time.Duration(noised+1)*300*time.Millisecond {
+					switch noised % 3 {
+					case 0:
+						peers[0].Send(Enc(TDead, &WDead{Incarnation: c06TInc, Node: "T", From: "p0"}))
+					case 1:
+						peers[0].Send(Enc(TSuspect, &WSuspect{Incarnation: c06TInc, Node: "T", From: "fresh"}))
+					case 2:
+						peers[0].Send(Enc(TAlive, &WAlive{Incarnation: c06TInc, Node: "T", Addr: []byte(tgt.EP.IP), Port: 7946, Vsn: DefaultVsn()}))
+					}
+					noised++
+					run.Count("e2e_stale_claims_during_suspicion", 1)
+				}
 			}
 		}
 		if leaveAt.IsZero() {
-			fail("harness/no-death-after-resuspicion", "target still listed %v after the refutation", time.Since(start))
+			if got {
+				fail("resuspicion/never-declared-dead", "re-suspected at +%v, %d older claims arrived since; %v later (maximum %v) the target is still listed as %s", second.Start.Sub(start), noised, time.Since(second.Start), second.Max, recString(rig.V.Record("T")))
+			} else {
+				fail("harness/no-death-after-resuspicion", "target still listed %v after the refutation", time.Since(start))
+			}
 			return
 		}
 		if !got {
 			fail("died-without-suspicion", "target declared dead at +%v after a refutation without a new suspicion", leaveAt.Sub(start))
 			return
 		}
-		k2, min2, max2, ok := check(second)
+		k2, min2, max2, ok := check(second, secondBefore, secondAt)
 		if !ok {
 			return
 		}
@@ -443,6 +547,10 @@ func TestC06(t *testing.T) {
 				sc.ForeignDeadAt = time.Duration(300+rng.Intn(3000))*time.Millisecond + 311*time.Microsecond
 			}
 		}
+		sc.Prehistory = []string{"", "rejoin-newaddr", "come-and-go", "meta-update", "addr-conflict"}[rng.Intn(5)]
+		for j, nn := 0, rng.Intn(4); j < nn; j++ {
+			sc.Noise = append(sc.Noise, time.Duration(150+rng.Intn(5000))*time.Millisecond+53*time.Microsecond)
+		}
 		run.Journal(id, fmt.Sprintf("%+v", sc))
 		var res []*c01Result
 		err := Bubble(t, func() { res = runC06E2E(run, run.Seed()*17+int64(i), sc) })
@@ -458,7 +566,7 @@ func TestC06(t *testing.T) {
 		}
 	}
 	if !run.Replaying() {
-		run.Require("e2e-end|refuted", "e2e-end|resuspected-then-timer", "e2e-end|foreign-dead")
+		run.Require("e2e-end|refuted", "e2e-end|resuspected-then-timer", "e2e-end|foreign-dead", "e2e-prehistory|rejoin-newaddr", "e2e-prehistory|come-and-go", "e2e-prehistory|meta-update", "e2e-prehistory|addr-conflict")
 	}
 	run.Complete()
 	if run.Violations() > 0 {
